@@ -170,6 +170,16 @@ def step (d : DSt) (ws : List String) : DSt × String :=
     | none => (d, "bad-op")
   | ["delay", _, _] => (d, "ok")
   | ["work", _] => (d, "ok")
+  | ["nestrun", _, kind, n] =>
+    -- the nested simulation's own report follows M-NET's classification (a message left in a mailbox outside the
+    -- simulation is a loss, a model waiting for its own reply is a deadlock with its request queued, a panic names the
+    -- model); the outer run has processed everything it sent: ok
+    let inner := match kind with
+      | "clean" => "ok"
+      | "lose" => s!"message-loss {n}"
+      | "deadlock" => "deadlock a:1"
+      | _ => "panic a"
+    (d, s!"nestrun inner={inner} outer=ok")
   | ["nested", k, j] =>
     match k.toNat?, j.toNat? with
     | some k, some j =>
